@@ -24,6 +24,10 @@ CHECKS = {
    technique="exhaustive enumeration of programs x budget rows on the real resolver loop; monotonicity relation between runs",
    text="Every program of the nine value-dependent families, the skeleton grid (chains needing up to 14 passes, with and without an oscillator), asm-block macros with local labels and #assert programs is assembled under a row of budgets (quick {1,2,3,4,5,10,11,30}, thorough 1..31): a success at N must recur with identical bits and symbols at every larger budget, the reported number of passes never exceeds the budget, failures are clean.",
    note="The implementation is compared with itself across budgets; states = distinct (program, outcome row), transitions = passes executed. Two defects found by this check were repaired (fix: 7b38a8a, bde47c9)."),
+ "C14": dict(level="model_checking", design="DESIGN.md §4 C14, §3.6",
+   technique="exhaustive enumeration of path strings, include graphs x #once subsets and inclusion-function ranges against reference models; real binary under strace for confinement (thorough)",
+   text="Every path string of up to 3 (thorough 4) components over {.., ., empty, sub, x.asm, <std>} with both separators from five current files is resolved by util::filename_navigate and compared with a component-wise path model plus a model-independent confinement predicate; every include graph over <= 3 (thorough 4) files with <= 2 includes per file, every #once subset, same-named files in sub-directories and several spellings is expanded on the mock file server and compared with a DFS expansion model (cycles must be errors); every path string inside #include/incbin/incbinstr/inchexstr from four positions; every (file length 0..4, start, length) for the three inclusion functions. Thorough re-runs trees and escape attempts with the real binary under strace with sentinel files outside the tree.",
+   note="states = distinct (include stack, once-set) configurations of the model, transitions = include steps. '..' popping a file's own root marker and zero-length results carry no verdict. Four defects found by this check were repaired (see known_findings.json)."),
  "C16": dict(level="model_checking", design="DESIGN.md §4 C16, §3.6",
    technique="exhaustive enumeration of condition trees x constant valuations x define assignments against a reference interpreter (ifworld)",
    text="Six complete families — condition trees (all chain shapes to a depth, all condition forms, all valuations, constants before/after/behind alias chains), feeding chains in all textual orders, references to arm-local symbols, define assignments (every subset of {A,B,C} x 8 values, hierarchical/undeclared/dead-arm/label names), undecidable and non-boolean conditions, and a driver sub-grid with every -d spelling — are compared (success, marker bytes, visible symbols, or an error) with a reference interpreter written from the property statement.",
